@@ -63,6 +63,16 @@ func WithTimeout(parent Context, d time.Duration) (Context, CancelFunc) {
 	return ctx, wrap(c)
 }
 
+func WithDeadlineCause(parent Context, d time.Time, cause error) (Context, CancelFunc) {
+	ctx, c := stdctx.WithDeadlineCause(parent, d, cause)
+	return ctx, wrap(c)
+}
+
+func WithTimeoutCause(parent Context, d time.Duration, cause error) (Context, CancelFunc) {
+	ctx, c := stdctx.WithTimeoutCause(parent, d, cause)
+	return ctx, wrap(c)
+}
+
 func WithValue(parent Context, key, val any) Context { return stdctx.WithValue(parent, key, val) }
 
 func Cause(c Context) error { return stdctx.Cause(c) }
